@@ -75,3 +75,13 @@ mut("c16-nsec-copy-shares", "C16", "ztypes.go", "	return &NSEC{rr.Hdr, rr.NextDo
 mut("c16-svcb-sort-in-place", "C16", "msg_helpers.go", "	pairs = cloneSlice(pairs)\n	sort.Slice(pairs, func(i, j int) bool {\n		return pairs[i].Key() < pairs[j].Key()", "	sort.Slice(pairs, func(i, j int) bool {\n		return pairs[i].Key() < pairs[j].Key()", "packing SVCB sorts the caller's parameter slice in place")
 mut("c16-padding-unpack", "C16", "edns.go", "func (e *EDNS0_PADDING) unpack(b []byte) error { e.Padding = cloneSlice(b); return nil }", "func (e *EDNS0_PADDING) unpack(b []byte) error { e.Padding = b; return nil }", "EDNS0 padding aliases the message buffer")
 mut("c16-msg-copy-question", "C16", "msg.go", "	if len(dns.Question) > 0 {\n		// TODO(miek): Question is an immutable value, ok to do a shallow-copy\n		r1.Question = cloneSlice(dns.Question)\n	}", "	r1.Question = dns.Question", "Msg.CopyTo shares the question slice")
+
+# ---- C20
+mut("c20-mx-ignores-preference", "C20", "zduplicate.go", "	if r1.Preference != r2.Preference {\n		return false\n	}\n	if !isDuplicateName(r1.Mx, r2.Mx) {", "	if !isDuplicateName(r1.Mx, r2.Mx) {", "MX comparison ignores the preference")
+mut("c20-name-compare-exact", "C20", "duplicate.go", "func isDuplicateName(s1, s2 string) bool { return equal(s1, s2) }", "func isDuplicateName(s1, s2 string) bool { return s1 == s2 }", "names compared case-sensitively")
+mut("c20-dedup-keeps-larger-ttl", "C20", "sanitize.go", "			if mrh.Ttl > rh.Ttl {", "			if mrh.Ttl < rh.Ttl {", "Dedup keeps the larger TTL")
+mut("c20-header-ignores-class", "C20", "duplicate.go", "	if r1.Class != r2.Class {\n		return false\n	}\n", "", "header comparison ignores the class")
+mut("c20-apl-equals-negation", "C20", "types.go", "	return a.Negation == b.Negation &&", "	return (a.Negation == b.Negation || true) &&", "APL prefix comparison ignores negation")
+mut("c20-svcb-pairs-length", "C20", "svcb.go", "		if err1 != nil || err2 != nil || !bytes.Equal(b1, b2) {\n			return false", "		if err1 != nil || err2 != nil || len(b1) != len(b2) || bytes.Equal(nil, []byte{1}) {\n			return false", "SVCB parameter values compared by length only")
+mut("c20-normalized-lowercases-rdata", "C20", "sanitize.go", "	for i := 0; i < len(b) && ttlEnd == 0; i++ {", "	for i := 0; i < len(b); i++ {", "Dedup key lower-cases the whole record text")
+mut("c20-nsec3-ignores-salt", "C20", "zduplicate.go", "	if r1.Salt != r2.Salt {\n		return false\n	}\n	if r1.HashLength != r2.HashLength {", "	if r1.HashLength != r2.HashLength {", "NSEC3 comparison ignores the salt")
